@@ -4,6 +4,7 @@ from __future__ import annotations
 import ast
 
 from .. import cfg as C
+from ..flow import expand
 from ..report import AnalysisError
 from ..srcmodel import norm
 
@@ -524,7 +525,15 @@ def rule_c(ctx):
     n = 0
     for k in m.subclasses(base):
         for f in k.methods.values():
-            for c in ast.walk(f.node):
+            for c0 in ast.walk(f.node):
+                c = c0
+                if isinstance(c, ast.Call) and norm(c.func).startswith("self.") and norm(c.func) != "self.linear_solve":
+                    # a system assembled by a one-expression helper of the class: judged at the call site, with the arguments in place
+                    inl = expand(f.node, c, helpers=True)
+                    if isinstance(inl, ast.Call) and norm(inl.func) == "sps.bmat":
+                        c = inl
+                        c._parent = getattr(c0, "_parent", None)
+                        c.lineno = c0.lineno
                 if isinstance(c, ast.Call) and norm(c.func) == "sps.bmat" and c.args and isinstance(c.args[0], ast.List):
                     rows = c.args[0].elts
                     if len(rows) != 3 or not all(isinstance(r, ast.List) and len(r.elts) == 3 for r in rows):
